@@ -49,8 +49,11 @@ def apply_edits(copy, edits):
 
 def run_tests(copy):
     env = dict(os.environ, PYTHONPATH=copy, PYTHONDONTWRITEBYTECODE="1")
-    r = subprocess.run(["/venv/bin/python", "-m", "pytest", "-q", "-x", "-p", "no:cacheprovider", "--timeout=120",
-                        "tests"], cwd=copy, env=env, capture_output=True, text=True)
+    try:
+        r = subprocess.run(["/venv/bin/python", "-m", "pytest", "-q", "-x", "-p", "no:cacheprovider", "--timeout=120",
+                            "tests"], cwd=copy, env=env, capture_output=True, text=True, timeout=240)
+    except subprocess.TimeoutExpired:
+        return False, "test-suite hangs (killed after 240 s)"
     tail = r.stdout.strip().splitlines()[-1] if r.stdout.strip() else r.stderr[-300:]
     return r.returncode == 0, tail
 
